@@ -277,6 +277,25 @@ func h1Oracles(env *Env, c *H1Cfg, st *h1State, hr *h1Run, runIdx int, stats sim
 				env.Hit("h1.limit_exactness_checked")
 			}
 		}
+		// constant rate >= 1 per tick: a new iteration starts at least every (longest body + one tick), so the
+		// limit must be reached when the run is long enough for that
+		if c.MaxIterations > 0 && c.Mode == "constant" && c.TickNs > 0 && c.TickRate >= 1 && !g.Cancelled && !setupFail && stats.Stalls == 0 && c.SlowOutputNs == 0 {
+			var longest int64
+			for _, p := range c.Prog.Iter {
+				d := p.SleepNs + p.After + ms
+				for _, cp := range p.Cleanups {
+					d += cp.SleepNs
+				}
+				longest = max(longest, d)
+			}
+			if int64(c.MaxIterations)*(longest+c.TickNs) < c.MaxDurationNs-20*ms-c.Prog.SetupSleepNs {
+				if n != c.MaxIterations {
+					env.Violate("C03", "limit-not-reached", "run/constant", "constant rate %d every %s for %s with bodies of at most %s ran %d invocations; the limit %d was reachable",
+						c.TickRate, dur(c.TickNs), dur(c.MaxDurationNs), dur(longest), n, c.MaxIterations)
+				}
+				env.Hit("h1.limit_exactness_checked")
+			}
+		}
 		if c.MaxIterations > 0 && n >= c.MaxIterations {
 			env.Hit("h1.limit_reached")
 		}
@@ -324,6 +343,24 @@ func h1Oracles(env *Env, c *H1Cfg, st *h1State, hr *h1Run, runIdx int, stats sim
 			if g.DoReturnedNs > deadline {
 				env.Violate("C05", "late-return", "run/"+c.Mode, "triggering had to stop by %s, completion timeout %s, but Do returned at %s (deadline %s; cancelled=%v timeout_reported=%v)",
 					dur(stop), dur(c.WaitTimeoutNs), dur(g.DoReturnedNs), dur(deadline), g.Cancelled, timedOut)
+			}
+			if timedOut {
+				// the completion timeout may only be reported once it has really expired: the wait for in-flight
+				// iterations starts when triggering stops, not before
+				// (earliest possible stop: 10 ms before the shorter of max-duration and the trigger's own duration,
+				// or the cancellation)
+				earliest := c.MaxDurationNs
+				if td > 0 && td < earliest {
+					earliest = td
+				}
+				earliest = start + earliest - 10*ms
+				if g.Cancelled && g.CancelNs < earliest {
+					earliest = max(g.CancelNs, start)
+				}
+				if tm := rec.timeoutReportedAt(); tm >= 0 && tm < earliest+c.WaitTimeoutNs-ms {
+					env.Violate("C05", "completion-timeout-reported-early", "run/"+c.Mode, "\"Active tests not completed\" reported at %s, but triggering could not stop before %s and the completion timeout is %s",
+						dur(tm), dur(earliest), dur(c.WaitTimeoutNs))
+				}
 			}
 			for _, b := range g.Bodies {
 				if b.BeginNs > stop+stallBudget {
@@ -484,7 +521,7 @@ func h1Verdict(env *Env, c *H1Cfg, hr *h1Run, passN, failN uint64, setupFail, ti
 	haveCounts := false
 	if hr.HaveResult {
 		succ, fail, drop, haveCounts = hr.Snap.Succ, hr.Snap.Fail, hr.Snap.Drop, true
-	} else if c.Driver == "cli" {
+	} else if c.Driver != "api" {
 		if s, ok := summaryCounts(hr.Rec); ok {
 			succ, fail, drop, haveCounts = s[1], s[2], s[3], true
 		}
@@ -508,7 +545,7 @@ func h1Verdict(env *Env, c *H1Cfg, hr *h1Run, passN, failN uint64, setupFail, ti
 	}
 	want := setupFail || teardownFail || (!c.IgnoreDropped && drop > 0) || tol
 	got := hr.Failed
-	if c.Driver == "cli" {
+	if c.Driver != "api" {
 		got = hr.CliErr != ""
 	}
 	if got != want {
